@@ -1,8 +1,8 @@
 (* Proofs/C01_EqCover.v - coverage of the proved classes relative to Known_C01: Known_C01 (Model/KnownC01.v)
    consists of the file scheme (class 1) and of the EXACT exclusions of the class recognisers, computed on the
    raw text (classes 2-4), so that "outside Known_C01" implies "in the proved class":
-     - no base: EVERY input with known_c01 None input = 0 is in in_proved_class3 None;
-     - a good_base pair of the right shape: every reference with known_c01 (Some b) input = 0 is in
+     - no base: EVERY input with known_c01_v1 None input = 0 is in in_proved_class3 None;
+     - a good_base pair of the right shape: every reference with known_c01_v1 (Some b) input = 0 is in
        in_proved_class3 (Some sb).
    Mechanism (Proofs/C01_KnownExact.v): the cuts of the authority Known_C01 makes are the cuts of the
    Standard's states; its raw path simulation (one drive-letter flag per segment) implies the test on the
@@ -27,7 +27,7 @@ Proof. destruct x; [reflexivity | discriminate]. Qed.
 
 (* ================= no base: everything outside Known_C01 is in a proved class ================= *)
 Theorem nonspecial_nobase_covers input sch R :
-  spec_scheme (spec_clean input) = Some (sch, R) -> is_special_scheme sch = false -> known_c01 None input = 0 ->
+  spec_scheme (spec_clean input) = Some (sch, R) -> is_special_scheme sch = false -> known_c01_v1 None input = 0 ->
   in_class_opaque input || in_class_pathonly input || in_class_authority input = true.
 Proof.
   intros Hs Hnsp Hk. destruct (known_exact_nobase input sch R Hs Hk) as (_ & Hd). rewrite Hnsp in Hd.
@@ -48,7 +48,7 @@ Proof.
     exact (k_path_ok_spath0 _ (k_bad_ok _ Hd)).
 Qed.
 
-Theorem nobase_covers input : known_c01 None input = 0 -> in_proved_class3 None input = true.
+Theorem nobase_covers input : known_c01_v1 None input = 0 -> in_proved_class3 None input = true.
 Proof.
   intros Hk. cbn [in_proved_class3]. unfold in_proved_nobase3.
   destruct (spec_scheme (spec_clean input)) as [[sch R]|] eqn:Hs.
@@ -114,7 +114,7 @@ Qed.
 (* ================= a non-special related base, scheme-less reference ================= *)
 Theorem nonspecial_base_covers b sb input :
   good_base dbg shs b sb -> is_special_scheme (su_scheme sb) = false ->
-  spec_scheme (spec_clean input) = None -> known_c01 (Some b) input = 0 ->
+  spec_scheme (spec_clean input) = None -> known_c01_v1 (Some b) input = 0 ->
   in_proved_class3 (Some sb) input = true.
 Proof.
   intros [R Hok] Hnsp Hs Hk.
@@ -163,7 +163,7 @@ Qed.
 (* ================= a special non-file base with a host, scheme-less reference ================= *)
 Theorem special_base_covers b sb input :
   good_base dbg shs b sb -> sp_base_ok sb = true ->
-  spec_scheme (spec_clean input) = None -> known_c01 (Some b) input = 0 ->
+  spec_scheme (spec_clean input) = None -> known_c01_v1 (Some b) input = 0 ->
   in_proved_class3 (Some sb) input = true.
 Proof.
   intros [R Hok] Hsb Hs Hk.
@@ -207,7 +207,7 @@ Theorem own_scheme_base_covers sb b input sch R :
   b_scheme b = su_scheme sb ->
   spec_scheme (spec_clean input) = Some (sch, R) ->
   is_special_scheme sch = false \/ list_eqb (su_scheme sb) sch = false ->
-  known_c01 (Some b) input = 0 -> in_proved_class3 (Some sb) input = true.
+  known_c01_v1 (Some b) input = 0 -> in_proved_class3 (Some sb) input = true.
 Proof.
   intros Hsch Hs Hign Hk.
   assert (is_special_scheme sch && list_eqb sch (b_scheme b) && negb (k_two_sl R) = false) as Hi.
@@ -225,7 +225,7 @@ Qed.
 Theorem same_scheme_base_covers b sb input R :
   good_base dbg shs b sb -> sp_base_ok sb = true ->
   spec_scheme (spec_clean input) = Some (su_scheme sb, R) ->
-  known_c01 (Some b) input = 0 -> in_proved_class3 (Some sb) input = true.
+  known_c01_v1 (Some b) input = 0 -> in_proved_class3 (Some sb) input = true.
 Proof.
   intros [Rl Hok] Hsb Hs Hk.
   destruct (sp_base_ok_facts sb Hsb) as (Hop & Hsp & Hnf & h & Eh).
@@ -278,7 +278,7 @@ End BaseCover.
 
 Theorem base_covers dbg shs b sb input :
   good_base dbg shs b sb -> base_shape_ok sb = true ->
-  known_c01 (Some b) input = 0 -> in_proved_class3 (Some sb) input = true.
+  known_c01_v1 (Some b) input = 0 -> in_proved_class3 (Some sb) input = true.
 Proof.
   intros Hb Hshape Hk. pose proof Hb as [Rl Hok].
   destruct (spec_scheme (spec_clean input)) as [[sch R]|] eqn:Hs.
@@ -306,7 +306,7 @@ Variable shp : bool -> list N -> option spec_host.
 Variable shs : spec_host -> list N.
 
 (* base = None: every input outside Known_C01 *)
-Theorem statement_nobase input : usv_list input -> known_c01 None input = 0 ->
+Theorem statement_nobase input : usv_list input -> known_c01_v1 None input = 0 ->
   host_hyp3 hp hpo hd shp shs None input ->
   agree_good dbg shs (parse_url dbg hp hpo hd None None input) (spec_basic_url_parse shp input None).
 Proof.
@@ -317,7 +317,7 @@ Qed.
 (* a good_base pair with a non-special scheme, scheme-less reference outside Known_C01 *)
 Theorem statement_nonspecial_base b sb input : usv_list input ->
   good_base dbg shs b sb -> is_special_scheme (su_scheme sb) = false ->
-  spec_scheme (spec_clean input) = None -> known_c01 (Some b) input = 0 ->
+  spec_scheme (spec_clean input) = None -> known_c01_v1 (Some b) input = 0 ->
   host_hyp3 hp hpo hd shp shs (Some sb) input ->
   agree_good dbg shs (parse_url dbg hp hpo hd None (Some b) input) (spec_basic_url_parse shp input (Some sb)).
 Proof.
@@ -330,7 +330,7 @@ Qed.
 Theorem statement_own_scheme_base b sb input sch R : usv_list input ->
   good_base dbg shs b sb -> spec_scheme (spec_clean input) = Some (sch, R) ->
   is_special_scheme sch = false \/ list_eqb (su_scheme sb) sch = false ->
-  known_c01 (Some b) input = 0 ->
+  known_c01_v1 (Some b) input = 0 ->
   host_hyp3 hp hpo hd shp shs (Some sb) input ->
   agree_good dbg shs (parse_url dbg hp hpo hd None (Some b) input) (spec_basic_url_parse shp input (Some sb)).
 Proof.
@@ -341,7 +341,7 @@ Qed.
 (* a good_base pair with a special non-file scheme and a host, scheme-less reference *)
 Theorem statement_special_base b sb input : usv_list input ->
   good_base dbg shs b sb -> sp_base_ok sb = true ->
-  spec_scheme (spec_clean input) = None -> known_c01 (Some b) input = 0 ->
+  spec_scheme (spec_clean input) = None -> known_c01_v1 (Some b) input = 0 ->
   host_hyp3 hp hpo hd shp shs (Some sb) input ->
   agree_good dbg shs (parse_url dbg hp hpo hd None (Some b) input) (spec_basic_url_parse shp input (Some sb)).
 Proof.
@@ -352,7 +352,7 @@ Qed.
 (* any base: a good_base pair of the right shape, any reference outside Known_C01 *)
 Theorem statement_base b sb input : usv_list input ->
   good_base dbg shs b sb -> base_shape_ok sb = true ->
-  known_c01 (Some b) input = 0 ->
+  known_c01_v1 (Some b) input = 0 ->
   host_hyp3 hp hpo hd shp shs (Some sb) input ->
   agree_good dbg shs (parse_url dbg hp hpo hd None (Some b) input) (spec_basic_url_parse shp input (Some sb)).
 Proof.
@@ -369,7 +369,7 @@ Definition full_rel (base : option url) (sbase : option spec_url) : Prop :=
   end.
 
 Theorem all_covers input base sbase : full_rel base sbase ->
-  known_c01 base input = 0 -> in_proved_class3 sbase input = true.
+  known_c01_v1 base input = 0 -> in_proved_class3 sbase input = true.
 Proof.
   intros Hb Hk. destruct base as [b|]; destruct sbase as [sb|]; cbn [full_rel] in Hb; try contradiction.
   - destruct Hb as [Hg Hs]. exact (base_covers dbg shs b sb input Hg Hs Hk).
@@ -377,7 +377,7 @@ Proof.
 Qed.
 
 Theorem statement_all input base sbase : usv_list input ->
-  full_rel base sbase -> known_c01 base input = 0 ->
+  full_rel base sbase -> known_c01_v1 base input = 0 ->
   host_hyp3 hp hpo hd shp shs sbase input ->
   agree_good dbg shs (parse_url dbg hp hpo hd None base input) (spec_basic_url_parse shp input sbase)
   /\ (forall su u, spec_basic_url_parse shp input sbase = BDone su -> parse_url dbg hp hpo hd None base input = POk u ->
@@ -396,7 +396,7 @@ End Statements.
 (* the same for the parser model with the host model plugged in against the Standard's parser with the
    Standard's host parser, relative to IdnaOK idna only *)
 Theorem statement_nobase_model dbg idna : IdnaOK idna -> forall input,
-  usv_list input -> known_c01 None input = 0 ->
+  usv_list input -> known_c01_v1 None input = 0 ->
   agree_good dbg spec_host_serializer
     (parse_url dbg (host_parse idna) host_parse_opaque host_display None None input)
     (spec_basic_url_parse (spec_host_parser idna) input None).
@@ -407,7 +407,7 @@ Qed.
 
 Theorem statement_nonspecial_base_model dbg idna : IdnaOK idna -> forall b sb input,
   usv_list input -> good_base dbg spec_host_serializer b sb -> is_special_scheme (su_scheme sb) = false ->
-  spec_scheme (spec_clean input) = None -> known_c01 (Some b) input = 0 ->
+  spec_scheme (spec_clean input) = None -> known_c01_v1 (Some b) input = 0 ->
   agree_good dbg spec_host_serializer
     (parse_url dbg (host_parse idna) host_parse_opaque host_display None (Some b) input)
     (spec_basic_url_parse (spec_host_parser idna) input (Some sb)).
@@ -419,7 +419,7 @@ Qed.
 Theorem statement_own_scheme_base_model dbg idna : IdnaOK idna -> forall b sb input sch R,
   usv_list input -> good_base dbg spec_host_serializer b sb -> spec_scheme (spec_clean input) = Some (sch, R) ->
   is_special_scheme sch = false \/ list_eqb (su_scheme sb) sch = false ->
-  known_c01 (Some b) input = 0 ->
+  known_c01_v1 (Some b) input = 0 ->
   agree_good dbg spec_host_serializer
     (parse_url dbg (host_parse idna) host_parse_opaque host_display None (Some b) input)
     (spec_basic_url_parse (spec_host_parser idna) input (Some sb)).
@@ -430,7 +430,7 @@ Qed.
 
 Theorem statement_special_base_model dbg idna : IdnaOK idna -> forall b sb input,
   usv_list input -> good_base dbg spec_host_serializer b sb -> sp_base_ok sb = true ->
-  spec_scheme (spec_clean input) = None -> known_c01 (Some b) input = 0 ->
+  spec_scheme (spec_clean input) = None -> known_c01_v1 (Some b) input = 0 ->
   agree_good dbg spec_host_serializer
     (parse_url dbg (host_parse idna) host_parse_opaque host_display None (Some b) input)
     (spec_basic_url_parse (spec_host_parser idna) input (Some sb)).
@@ -441,7 +441,7 @@ Qed.
 
 Theorem statement_base_model dbg idna : IdnaOK idna -> forall b sb input,
   usv_list input -> good_base dbg spec_host_serializer b sb -> base_shape_ok sb = true ->
-  known_c01 (Some b) input = 0 ->
+  known_c01_v1 (Some b) input = 0 ->
   agree_good dbg spec_host_serializer
     (parse_url dbg (host_parse idna) host_parse_opaque host_display None (Some b) input)
     (spec_basic_url_parse (spec_host_parser idna) input (Some sb)).
@@ -451,7 +451,7 @@ Proof.
 Qed.
 
 Theorem statement_all_model dbg idna : IdnaOK idna -> forall input base sbase,
-  usv_list input -> full_rel dbg spec_host_serializer base sbase -> known_c01 base input = 0 ->
+  usv_list input -> full_rel dbg spec_host_serializer base sbase -> known_c01_v1 base input = 0 ->
   agree_good dbg spec_host_serializer
     (parse_url dbg (host_parse idna) host_parse_opaque host_display None base input)
     (spec_basic_url_parse (spec_host_parser idna) input sbase)
@@ -487,7 +487,7 @@ Proof.
 Qed.
 
 Theorem statement_instance dbg idna : IdnaOK idna -> forall input base sbase,
-  usv_list input -> full_rel dbg spec_host_serializer base sbase -> known_c01 base input = 0 ->
+  usv_list input -> full_rel dbg spec_host_serializer base sbase -> known_c01_v1 base input = 0 ->
   statement_shape dbg spec_host_serializer
     (parse_url dbg (host_parse idna) host_parse_opaque host_display None base input)
     (spec_basic_url_parse (spec_host_parser idna) input sbase).
@@ -510,10 +510,10 @@ Definition wit_k3 : list N := [110;58;47;47;120;46;121;58;56;92].             (*
 Definition wit_k4 : list N := [98;108;111;98;58;47;47;58;64;47].              (* blob://:@/   : accepted vs failure *)
 
 Theorem known_classes_refuted :
-  (known_c01 None wit_k1 = 1 /\ sides_differ None None wit_k1)
-  /\ (known_c01 None wit_k2 = 2 /\ sides_differ None None wit_k2)
-  /\ (known_c01 None wit_k3 = 3 /\ sides_differ None None wit_k3)
-  /\ (known_c01 None wit_k4 = 4 /\ sides_differ None None wit_k4).
+  (known_c01_v1 None wit_k1 = 1 /\ sides_differ None None wit_k1)
+  /\ (known_c01_v1 None wit_k2 = 2 /\ sides_differ None None wit_k2)
+  /\ (known_c01_v1 None wit_k3 = 3 /\ sides_differ None None wit_k3)
+  /\ (known_c01_v1 None wit_k4 = 4 /\ sides_differ None None wit_k4).
 Proof.
   repeat split; try (vm_compute; reflexivity); unfold sides_differ; vm_compute; intros H; try exact H; try discriminate H.
 Qed.
@@ -524,7 +524,7 @@ Definition wit_k2_ref : list N := [46;46;47;121].                             (*
 Theorem known_class2_base_refuted :
   match parse_url true (host_parse id_idna) host_parse_opaque host_display None None wit_k2_base,
         spec_basic_url_parse (spec_host_parser id_idna) wit_k2_base None with
-  | POk b, BDone sb => known_c01 (Some b) wit_k2_ref = 2 /\ known_c01 None wit_k2_base = 0
+  | POk b, BDone sb => known_c01_v1 (Some b) wit_k2_ref = 2 /\ known_c01_v1 None wit_k2_base = 0
                        /\ sides_differ (Some b) (Some sb) wit_k2_ref
   | _, _ => False
   end.
@@ -540,18 +540,18 @@ Definition nar_2 : list N := [110;58;47;47;117;58;64;104;47;58;64].             
 Definition nar_3 : list N := [110;58;47;47;104;47;67;58;47;120;47;46;46].            (* n://h/C:/x/.. *)
 Definition nar_4 : list N := [110;58;47;47;104;58;56;47;97;92;98;63;92].             (* n://h:8/a\b?\ *)
 Theorem known_narrowed :
-  (known_c01_broad None nar_1 = 4 /\ known_c01 None nar_1 = 0)
-  /\ (known_c01_broad None nar_2 = 4 /\ known_c01 None nar_2 = 0)
-  /\ (known_c01_broad None nar_3 = 2 /\ known_c01 None nar_3 = 0)
-  /\ (known_c01_broad None nar_4 = 3 /\ known_c01 None nar_4 = 0).
+  (known_c01_broad None nar_1 = 4 /\ known_c01_v1 None nar_1 = 0)
+  /\ (known_c01_broad None nar_2 = 4 /\ known_c01_v1 None nar_2 = 0)
+  /\ (known_c01_broad None nar_3 = 2 /\ known_c01_v1 None nar_3 = 0)
+  /\ (known_c01_broad None nar_4 = 3 /\ known_c01_v1 None nar_4 = 0).
 Proof. vm_compute. repeat split. Qed.
 
 (* class 1 does not contain the bare references against a file base *)
 Definition file_base_text : list N := [102;105;108;101;58;47;47;104;47;116;109;112;47;120].   (* file://h/tmp/x *)
 Theorem known_file_bare :
   match parse_url true (host_parse id_idna) host_parse_opaque host_display None None file_base_text with
-  | POk b => known_c01 (Some b) [35; 102] = 0 /\ known_c01 (Some b) [63; 113] = 0 /\ known_c01 (Some b) [] = 0
-             /\ known_c01 (Some b) [32; 9] = 0 /\ known_c01 (Some b) [120] = 1 /\ known_c01 (Some b) [47; 120] = 1
+  | POk b => known_c01_v1 (Some b) [35; 102] = 0 /\ known_c01_v1 (Some b) [63; 113] = 0 /\ known_c01_v1 (Some b) [] = 0
+             /\ known_c01_v1 (Some b) [32; 9] = 0 /\ known_c01_v1 (Some b) [120] = 1 /\ known_c01_v1 (Some b) [47; 120] = 1
   | _ => False
   end.
 Proof. vm_compute. repeat split. Qed.
